@@ -194,6 +194,67 @@ def _order_worker(d, chunk, extra):
     return out
 
 
+GCC_SOURCE = b"""
+struct S { int a; struct S *next; }; union U { int i; float f; }; enum E { E0, E1 = 5 };
+typedef struct S S_t; static S_t g1; union U g2; enum E g3;
+int f (int x) { S_t l; l.a = x; { int inner = x * 2; l.a += inner; } return l.a + g2.i + (int) g3; }
+int main (void) { return f (3); }
+"""
+
+
+def gcc_cases(thorough):
+    flags = [["-gdwarf-%d" % v] + t + o for v in (2, 3, 4, 5) for t in ([], ["-fdebug-types-section"]) for o in ([["-O0"], ["-O2"]] if thorough else [["-O0"]])]
+    return [f for f in flags]
+
+
+def _gcc_worker(d, chunk, extra):
+    """Compiler-produced objects: the raw view lists exactly the units and DIEs that an independent reader (lib/dwread.py)
+    finds in .debug_info - whatever other DWARF sections (.debug_types) the file has."""
+    import subprocess, shutil, dwread
+    out = {"files": 0, "queries": 0, "results": 0, "dies": 0, "bad": []}
+    if not shutil.which("gcc"):
+        return out
+    os.makedirs(dwbattery.DWDIR, exist_ok=True)
+    src = os.path.join(dwbattery.DWDIR, "c02g-%d.c" % os.getpid())
+    obj = os.path.join(dwbattery.DWDIR, "c02g-%d.o" % os.getpid())
+    open(src, "wb").write(GCC_SOURCE)
+    for flags in chunk:
+        # unlinked objects keep type units in COMDAT groups (several .debug_info sections): only the plain ones are compared unlinked
+        for link in ((True,) if "-fdebug-types-section" in flags else (False, True)):
+            cmd = ["gcc", "-g", "-w"] + flags + (["-shared", "-fPIC", "-nostdlib"] if link else ["-c"]) + ["-o", obj, src]
+            p = subprocess.run(cmd, stdout=subprocess.PIPE, stderr=subprocess.PIPE)
+            if p.returncode != 0:
+                continue
+            try:
+                rd = dwread.ElfReader(obj)
+                us = rd.units() if callable(rd.units) else rd.units
+                units = [u for u in us if u.section == ".debug_info"]
+            except Exception as e:
+                continue
+            exp_units = ["c:Dwarf_Off:%d@0" % u.root.offset for u in units]
+            exp_dies = ["c:Dwarf_Off:%d@0" % x.offset for u in units for x in u.root.walk()]
+            exp_par = ["[" + ",".join("c:Dwarf_Off:%d@0" % y.offset for y in ([x] + ([x.parent] if x.parent is not None else []))) + "]@0" for u in units for x in u.root.walk()]
+            rs = d.batch(["open id=g1 path=" + drv.hx(obj), drv.run_cmd("raw unit root offset", i="g1", lim=100000), drv.run_cmd("raw entry offset", i="g1", lim=100000),
+                          drv.run_cmd("raw entry (|E| [E offset] [E parent offset] add)", i="g1", lim=100000), "close id=g1"])
+            out["files"] += 1
+            out["queries"] += 3
+            out["dies"] += len(exp_dies)
+            for name, r, exp in (("raw unit root offset", rs[1], exp_units), ("raw entry offset", rs[2], exp_dies), ("raw entry with parent", rs[3], exp_par)):
+                out["results"] += len(r.results())
+                got = r.results()
+                if r.crash or got != exp or len(r.lines) != len(exp):
+                    k = next((i for i, (a, b) in enumerate(zip(got, exp)) if a != b), min(len(got), len(exp)))
+                    out["bad"].append(("gcc:%s:%d|%s" % (" ".join(flags), link, name), "gcc %s (%s): `%s` yields %d results, .debug_info holds %d; first difference at #%d: %s vs %s; other output %r" % (
+                        " ".join(flags), "linked" if link else "object", name, len(got), len(exp), k, got[k:k + 1], exp[k:k + 1], [l for l in r.lines if not l.startswith("r ")][:2]),
+                        {"gcc": flags, "qid": name}))
+    for f in (src, obj):
+        try:
+            os.unlink(f)
+        except OSError:
+            pass
+    return out
+
+
 def _worker(d, task, extra):
     ndies, thorough, k, m = task
     path = os.path.join(dwbattery.DWDIR, "c02-%d.o" % os.getpid())
@@ -244,6 +305,8 @@ def replay(case):
     ctx = common.Ctx("C02", "quick")
     d = drv.Drv(ctx.bin("zwdrv"), "full")
     try:
+        if "gcc" in case:
+            return bool(_gcc_worker(d, [case["gcc"]], None)["bad"])
         if "order" in case:
             n, shape, ci = json.loads(case["order"])
             return bool(_order_worker(d, [(n, [to_tuple(t) for t in shape], ci)], None)["bad"])
@@ -285,6 +348,12 @@ def main(ctx):
         ctx.count("unit_order_queries", r["queries"])
         for key, what, case in r["bad"]:
             ctx.violation(key, what, case)
+    for r in common.pmap(ctx, _gcc_worker, [[f] for f in gcc_cases(thorough)], bins["zwdrv"], "full", timeout=300):
+        for k in ("files", "queries", "results"):
+            ctx.count(k, r[k])
+        ctx.count("gcc_objects", r["files"])
+        for key, what, case in r["bad"]:
+            ctx.violation(key, what, case)
     ctx.sample({"forest": "[((),), ((), ((),))]  (two units)", "flagged_leaves": "childless DIEs whose abbreviation claims children", "battery": list(BAT.items)})
     n = ctx.counts.get("files", 0)
     cov = {
@@ -296,7 +365,7 @@ def main(ctx):
         "rule": "state = one generated ELF file (forest shape x flagged-leaf subset x version/offset size x sibling attributes); transition = one battery query executed "
                 "on it and compared, result by result, with the generator's model; distinct = distinct file",
         "bounds": {"max_dies": ndies, "max_units": 3, "versions": [2, 3, 4, 5], "offset_sizes": [4, 8], "dies_checked": ctx.counts.get("dies", 0),
-                   "configs_per_shape": "all 8", "unit_kinds": "DWARF 5: every sequence of up to %d units over compile / partial / type / skeleton units, 4- and 8-byte offsets" % kmax, "unit_visit_orders": "every permutation of the units of every forest of <= %d DIEs in 2-3 units, raw and cooked, each on a freshly opened file" % omax, "attribute_lists": {"alphabet": [a[:2] for a in ATTR_ALPHABET], "max_entries": alen,
+                   "configs_per_shape": "all 8", "gcc_objects": "one source compiled with -gdwarf-2..5 x with / without -fdebug-types-section, as object and linked; raw units, DIEs and parents vs lib/dwread.py on .debug_info (skipped when gcc is absent)", "unit_kinds": "DWARF 5: every sequence of up to %d units over compile / partial / type / skeleton units, 4- and 8-byte offsets" % kmax, "unit_visit_orders": "every permutation of the units of every forest of <= %d DIEs in 2-3 units, raw and cooked, each on a freshly opened file" % omax, "attribute_lists": {"alphabet": [a[:2] for a in ATTR_ALPHABET], "max_entries": alen,
                                                                        "note": "every list, repeated names included, in all 8 configurations"}},
     }
     return ctx.finish("model_checking", cov, [
